@@ -20,6 +20,7 @@ RULE = ('the complete grid rows 0..40 x dump batch_size 1..12 x load batch_size 
         'int/string/float/struct/list columns, file path and file object): the real dump_to_file writes the file, '
         'pyarrow.parquet.read_table (independent reader) and the real load_from_file read it back; both must equal the source rows, '
         'once each and in order. Non-trivial = distinct grid point with at least two batches.')
+DEEP_PROBES = ('batch sizes 257 / 300 with 257 / 600 / 601 rows; 5-8 column schemas with 1 024..3 276 rows; values with equal hashes, None values, dict key order different from the schema')
 ASSUMPTIONS = ['row values are small ints / short strings / halves; schemas as listed', 'grid bounds as stated']
 LEVEL_TEXT = ('Exhaustive small-scope exploration of the (row count, dump batch size, load batch size) grid of the real writer/reader '
               'pair against an independent reader; defects of this code are divisibility / batching arithmetic, which the complete '
